@@ -41,17 +41,23 @@ impl<const N: usize> std::io::Write for ArrSink<N> {
 	}
 }
 
-/// BufRead test double: every `fill_buf` exposes a *nondeterministic* non-empty prefix of what
-/// is left (chosen when the previous chunk is exhausted) => all partitions of the stream into
-/// refills are explored, not only regular ones.
+/// BufRead test double.  `irregular`: every `fill_buf` that finds the previous chunk exhausted
+/// exposes a *nondeterministic* non-empty prefix of what is left => all partitions of the stream
+/// into refills are explored.  `regular(k)`: refills of a fixed (symbolic) size k, i.e. a reader
+/// with internal buffer capacity k.
 struct Chunked<'a> {
 	data: &'a [u8],
 	pos: usize,
 	chunk_end: usize,
+	fixed: usize, // 0 = irregular
 }
 impl<'a> Chunked<'a> {
-	fn new(data: &'a [u8]) -> Self {
-		Self { data, pos: 0, chunk_end: 0 }
+	fn irregular(data: &'a [u8]) -> Self {
+		Self { data, pos: 0, chunk_end: 0, fixed: 0 }
+	}
+	fn regular(data: &'a [u8], k: usize) -> Self {
+		assert!(k >= 1);
+		Self { data, pos: 0, chunk_end: 0, fixed: k }
 	}
 	fn consumed(&self) -> usize {
 		self.pos
@@ -63,11 +69,7 @@ impl<'a> std::io::Read for Chunked<'a> {
 		let n = {
 			let avail = self.fill_buf()?;
 			let n = if avail.len() < out.len() { avail.len() } else { out.len() };
-			let mut i = 0;
-			while i < n {
-				out[i] = avail[i];
-				i += 1;
-			}
+			out[..n].copy_from_slice(&avail[..n]);
 			n
 		};
 		self.consume(n);
@@ -77,14 +79,20 @@ impl<'a> std::io::Read for Chunked<'a> {
 impl<'a> std::io::BufRead for Chunked<'a> {
 	fn fill_buf(&mut self) -> std::io::Result<&[u8]> {
 		if self.pos >= self.chunk_end && self.pos < self.data.len() {
-			let k: usize = kani::any();
-			kani::assume(k >= 1 && k <= self.data.len() - self.pos);
+			let left = self.data.len() - self.pos;
+			let k: usize = if self.fixed != 0 {
+				if self.fixed < left { self.fixed } else { left }
+			} else {
+				let k: usize = kani::any();
+				kani::assume(k >= 1 && k <= left);
+				k
+			};
 			self.chunk_end = self.pos + k;
 		}
-		Ok(&self.data[self.pos..self.chunk_end.max(self.pos)])
+		Ok(&self.data[self.pos..self.chunk_end])
 	}
 	fn consume(&mut self, amt: usize) {
 		self.pos += amt;
-		assert!(self.pos <= self.chunk_end || amt == 0, "consume past the exposed chunk");
+		assert!(self.pos <= self.chunk_end, "consume past the exposed chunk");
 	}
 }
